@@ -1,0 +1,19 @@
+//go:build verif
+
+package dt
+
+import "sync"
+
+// VerifGuardHook is installed by the conformance harness (build tag
+// verif, property C13) before any goroutine is started. verifGuard
+// marks the entry of a Set helper whose contract is "the caller holds
+// the Set's lock"; the handler receives the Set's mutex (nil for a
+// Set that is not synchronized) and may probe it. The hook carries no
+// claim about what the surrounding code did.
+var VerifGuardHook func(point string, mu *sync.Mutex)
+
+func verifGuard(point string, holder *atomic[*sync.Mutex]) {
+	if h := VerifGuardHook; h != nil {
+		h(point, holder.Get())
+	}
+}
